@@ -104,7 +104,7 @@ def nontrivial(case, il):
 
 def gen_random(tier, seed):
     rng = Rng(seed * 59 + 1)
-    n = 300 if tier == "quick" else 6000
+    n = 1000 if tier == "quick" else 6000
     cases = []
     for i in range(n):
         g = Gen(rng, chmax=4, bound=rng.choice([1, 2, 4, 8]), via_stream=0.0)
